@@ -310,7 +310,8 @@ class Interp:
             l = self.eval(e.left, env)
             r = self.eval(e.comparators[0], env)
             if isinstance(l, IntV) and isinstance(r, IntV):
-                return CmpV(type(e.ops[0]).__name__, l.term, r.term)
+                opn = {'Eq': '__eq__', 'NotEq': '__ne__', 'Lt': '__lt__', 'LtE': '__le__', 'Gt': '__gt__', 'GtE': '__ge__'}.get(type(e.ops[0]).__name__, type(e.ops[0]).__name__)
+                return CmpV(opn, l.term, r.term)
             return Other(unparse(e))
         if isinstance(e, ast.Tuple):
             return TupV([self.eval(x, env) for x in e.elts])
@@ -398,6 +399,12 @@ class Interp:
             else:
                 out.append((e2, conds + (fc,), list(stores)))
             return out
+        if isinstance(st, (ast.Assign, ast.Return)) and isinstance(st.value, ast.IfExp):
+            # `x = A if c else B` / `return A if c else B`: the same statement under an if
+            mk = (lambda v_: ast.copy_location(ast.Assign(targets=st.targets, value=v_), st)) if isinstance(st, ast.Assign) \
+                else (lambda v_: ast.copy_location(ast.Return(value=v_), st))
+            syn = ast.copy_location(ast.If(test=st.value.test, body=[mk(st.value.body)], orelse=[mk(st.value.orelse)]), st)
+            return self.step(syn, env, conds, stores, outcomes)
         if isinstance(st, ast.Assign) and len(st.targets) == 1:
             env = dict(env)
             stores = list(stores)
